@@ -434,28 +434,73 @@ def trivium_schedule(w, bpc):
 
 
 def do_trivium(case, ob, site):
+    from ..cuts import Cuts
     w, bpc = case['w'], case['bpc']
     block = build_trivium(w, bpc)
     sched, init_ready, gen_ready, gen = trivium_schedule(w, bpc)
+    regs = {r.bitwidth: r for r in block.wirevector_subset(pyrtl.Register) if r.bitwidth in (93, 84, 111)}
+    an, bn, cn = regs[93].name, regs[84].name, regs[111].name
     v = Vars()
     seed = v.inp('seed', 0, 160)
 
     def ins(t):
         return {'load': sched[t][0], 'req': sched[t][1], 'seed': SymInt.mk(seed, False) if t == 0 else 0}
     with sym_env([block]):
-        rs = run_sim(block, len(sched), v, reg_init='sym', mem_init='default', track='io', inputs_override=ins)
+        rs = run_sim(block, len(sched), v, reg_init='sym', mem_init='default', track='all', inputs_override=ins)
     r = simdrv.single_path(rs)
     key, iv = z3.Extract(159, 80, seed), z3.Extract(79, 0, seed)
     kb = [z3.Extract(i, i, key) for i in range(80)]
     ib = [z3.Extract(i, i, iv) for i in range(80)]
-    ks = refs.trivium_keystream(kb, ib, gen * bpc)
-    stream = z3.Concat(*ks) if len(ks) > 1 else ks[0]          # earliest bit most significant
+    init = 1152 // bpc
+
+    def pack(bits):
+        return z3.Concat(*bits[::-1])
+
+    def unpack(terms):
+        a, b, c = terms
+        return ([z3.Extract(i, i, a) for i in range(93)] + [z3.Extract(i, i, b) for i in range(84)]
+                + [z3.Extract(i, i, c) for i in range(111)])
+    # documented protocol: the state advances on cycles 1..init (initialisation: 1152 clocks), on the req cycle and on the
+    # gen-1 cycles after it. Per cycle one lemma (circuit next state == bpc reference clocks of the previous state, the
+    # previous state being a cut variable, i.e. arbitrary) — the chain of proved equalities is the induction.
+    cuts = Cuts()
+    prev = None      # cut variables standing for (a, b, c) visible at cycle t-1
+    zs = []
+    for t in range(1, len(sched)):
+        if t == 1:
+            S = refs.trivium_init(kb, ib)
+        else:
+            S = unpack(prev)
+            if 2 <= t <= init + 1 or (init_ready + 1 < t <= init_ready + 1 + gen):
+                gen_phase = t > init_ready + 1
+                for _ in range(bpc):
+                    z, S = refs.trivium_step(S)
+                    if gen_phase:
+                        zs.append(z)
+        cur = []
+        for nm, lo, hi in ((an, 0, 93), (bn, 93, 177), (cn, 177, 288)):
+            val = r.trace[nm][t]
+            term = sym._lift(val).t if sym.is_sym(val) else None
+            spec = pack(S[lo:hi])
+            if term is None:
+                ob.prove('trivium-state:%s@%d' % (nm, t), z3.BitVecVal(val, hi - lo) == spec, [], v, site=site + ':state')
+                cur.append(z3.BitVecVal(val, hi - lo))
+                continue
+            full = to_bv(val, hi - lo)
+            ok = cuts.cut(ob, 'trivium-state:%s@%d' % (nm, t), term, z3.Extract(term.size() - 1, 0, spec), [], v, site)
+            # the bits above term.size() are zero by the engine's interval invariant; assert that the spec agrees
+            if term.size() < hi - lo:
+                ob.prove('trivium-state-hi:%s@%d' % (nm, t), z3.Extract(hi - lo - 1, term.size(), cuts.rewrite(spec)) == 0,
+                         cuts.defs[-3:], v, site=site + ':state')
+            cur.append(cuts.rewrite(full) if ok else full)
+        prev = cur
+    stream = z3.Concat(*zs) if len(zs) > 1 else zs[0]          # earliest bit most significant
     exp = z3.Extract(w - 1, 0, stream) if gen * bpc >= w else stream
     goals = []
     for t in range(1, len(sched)):
         want = 1 if t in (init_ready, gen_ready) else 0
-        goals.append(('trivium:ready@%d' % t, to_bv(r.trace['ready'][t], 1) == want, site + ':ready'))
-    goals.append(('trivium:rand', to_bv(r.trace['rand'][gen_ready], w) == exp, site + ':rand'))
+        goals.append(('trivium:ready@%d' % t, cuts.rewrite(to_bv(r.trace['ready'][t], 1) == want), site + ':ready'))
+    goals.append(('trivium:rand', cuts.rewrite(to_bv(r.trace['rand'][gen_ready], w) == exp), site + ':rand'))
     ob.prove_all(goals, r.pc, v)
 
 
